@@ -1092,6 +1092,34 @@ func (g *gen) txModify(pm *Model, batchOpen []*MAuction) *Tx {
 		switch g.r.Intn(5) {
 		case 0:
 			m.Who = (who + 1) % len(pm.Actors)
+			// prefer a stranger who is not on this auction's allow-list (a bid taken over by such an
+			// account would be recorded for somebody the allow-list does not contain) and, among those,
+			// one who holds a bid with the same number in another auction (bid ids are per auction)
+			best := -1
+			for off := 1; off < len(pm.Actors); off++ {
+				cand := (who + off) % len(pm.Actors)
+				addr := pm.actor(cand)
+				if _, listed := a.Allowed[addr]; listed {
+					continue
+				}
+				if best < 0 {
+					best = cand
+				}
+				for _, oa := range pm.Auctions {
+					if oa.ID == a.ID {
+						continue
+					}
+					for _, ob := range oa.Bids {
+						if ob.ID == b.ID && ob.Bidder == addr {
+							best = cand
+						}
+					}
+				}
+			}
+			if best >= 0 && g.chance(0.7) {
+				m.Who = best
+				g.intents["modify_by_unlisted_stranger"]++
+			}
 			note = "notowner"
 		case 1:
 			if b.Denom == a.PayDenom {
